@@ -285,6 +285,25 @@ def run_shard(spec):
                         violations.append(dict(wit, what="C12 mirrored follow-up raised %s" % type(e).__name__, followup=op))
                         break
             counters["mirrored_followups"] = counters.get("mirrored_followups", 0) + 1
+            # the indices of the two managers keep answering alike and stay consistent with the tasks
+            later = []
+            if supports(m2) != supports(real.mgr):
+                sa, sb = supports(real.mgr), supports(m2)
+                later.append("index supports differ (original vs restored): %s" % (
+                    [(k, sa.get(k), sb.get(k)) for k in set(sa) | set(sb) if sa.get(k) != sb.get(k)][:2],))
+            bad_idx = mgrmon.index_violations(m2)
+            if bad_idx:
+                later.append("restored index supports inconsistent: %s" % bad_idx[:2])
+            for who, m in (("original", real.mgr), ("restored", m2)):
+                try:
+                    m.verify()
+                except Exception as exc:
+                    later.append("verify() of the %s raised: %s" % (who, str(exc)[:150]))
+            counters["index_checks_after_followups"] = counters.get("index_checks_after_followups", 0) + 1
+            if later:
+                violations.append(dict(wit, what="C12 after follow-up %s: %s" % (op[0], "; ".join(later[:3])), followup=op,
+                                       followups=[o for o, _ in fups[:j + 1]]))
+                break
             ca, cb = cont(real), cont(twin)
             want = {k: canon(v) for k, v in exp.items()}
             if ca != cb or ca != want:
